@@ -30,7 +30,7 @@ ASSUME = ["workers poll with timeouts <= 5 s: all node/connection/application wo
           "timeout closures happen between wait_timeout and wait_timeout + wakeup + 2 s after stop()"]
 
 STATES = ["connecting", "awaiting-cer", "awaiting-cea", "ready", "ready", "waiting-dwa", "disconnecting"]
-REACTIONS = ["prompt", "late", "never", "close", "reset"]
+REACTIONS = ["prompt", "late", "never", "close", "reset", "dpa-pending-output"]
 
 
 def world_cfg(case):
@@ -129,6 +129,18 @@ def evaluate(case) -> Result:
                     w.feed_msg(c, {"k": "DPA", "host": c.host or f"peer{i + 1}.example", "hbh": dprs[0].h["hbh"], "e2e": dprs[0].h["e2e"]})
                     t_dpa[i] = w.k.now
                     del pending_reactions[i]
+                elif react == "dpa-pending-output":
+                    # the peer stops reading, sends a DWR (its DWA stays in the node's write buffer) and the
+                    # DPA; output is flushed one second later: the connection must then be closed
+                    host_i = c.host or f"peer{i + 1}.example"
+                    c.remote.sock.tx_blocked = True
+                    w.feed_msg(c, {"k": "DWR", "host": host_i, "hbh": 0xdd00 + i, "e2e": 0xdd00 + i})
+                    w.feed_msg(c, {"k": "DPA", "host": host_i, "hbh": dprs[0].h["hbh"], "e2e": dprs[0].h["e2e"]})
+                    w.advance(1)
+                    c.remote.sock.tx_blocked = False
+                    w.run()
+                    t_dpa[i] = w.k.now
+                    del pending_reactions[i]
                 elif react == "close":
                     w.peer_close(c)
                     t_dpa[i] = w.k.now
@@ -192,7 +204,7 @@ def evaluate(case) -> Result:
             if i in t_dpa:
                 if c.remote.closed_at < t_dpa[i]:
                     res.v("C18/closed-before-dpa", f"conn {i} closed at +{tc:g}s, its DPA/close came at +{t_dpa[i] - t_stop:g}s")
-                elif c.remote.closed_at > t_dpa[i] + wake + 1 and tc < wait:
+                elif c.remote.closed_at > t_dpa[i] + wake + 1:
                     res.v("C18/not-closed-after-dpa", f"conn {i}: DPA at +{t_dpa[i] - t_stop:g}s, closed only at +{tc:g}s")
             else:
                 if tc < wait and not case["conns"][i]["state"] == "disconnecting":
